@@ -1,5 +1,6 @@
 import TcheranVerif.Model.Draw
 import TcheranVerif.Proofs.Bits
+import TcheranVerif.Proofs.LegalPos
 /-!
 # C11 — repetition, fifty-move and dead-material draws
 
@@ -10,8 +11,9 @@ import TcheranVerif.Proofs.Bits
   since the last capture or pawn move". Works for FEN starts with a non-zero clock and no history
   (`take` of a short list).
 * `repeated_window` — entries older than the clock are never consulted.
-* `fifty_exact` — the fifty-move verdict is `clock ≥ 100 ∧ a legal move exists` (relative to the
-  engine's generator; its equality with the rules is C01).
+* `fifty_exact` — the fifty-move verdict is `clock ≥ 100 ∧ a legal move exists` relative to the
+  engine's generator; `fifty_rules` composes it with C01's `generate_exact`: in every legal position the
+  verdict is the rules' (`clock ≥ 100` and the side to move has a legal move).
 * `insufficient_*` — the material rule as a function of piece counts: true for bare kings and for
   king + one minor v king; false whenever a pawn, rook or queen is present or more than two minor
   pieces remain (the counts are linked to the board by `Props.C02`'s view consistency; that link is
@@ -77,6 +79,41 @@ theorem fifty_exact (g : Game) (ms : List Move) (h : generateLegal g = some ms) 
   by_cases hc : g.halfmove ≥ 100
   · simp [hc, h]
   · simp [hc]
+
+/-- **fifty_rules**: the fifty-move verdict is the rules' verdict in every legal position -/
+theorem fifty_rules (T : SliderTables) (g : Game) (hc : g.board.Consistent)
+    (hl : Rules.legalPos (Rules.ofGame g) = true) (ms : List Move) (h : generateLegal g = some ms) :
+    g.isFifty = some (Rules.isFifty (Rules.ofGame g)) := by
+  rw [fifty_exact g ms h]
+  obtain ⟨k, hk⟩ := posH_of_legal g hc hl
+  obtain ⟨caps, cache, quiets, h1, h2, h3⟩ := Tcheran.generate_exact T g k hk
+  have hms : ms = caps ++ quiets := by
+    unfold generateLegal at h
+    rw [h1] at h
+    change (do let quiets ← generateQuiets g cache; _) = some ms at h
+    rw [h2] at h
+    change (if (caps ++ quiets).length > 218 then none else pure (caps ++ quiets)) = some ms at h
+    split at h
+    · cases h
+    · exact (Option.some.inj h).symm
+  have hemp : ms.isEmpty = (Rules.legalMoves (Rules.ofGame g)).isEmpty := by
+    rw [hms]
+    cases hA : (caps ++ quiets) with
+    | nil =>
+      cases hB : Rules.legalMoves (Rules.ofGame g) with
+      | nil => rfl
+      | cons x xs =>
+        have := (h3 x).2 (by rw [hB]; exact List.mem_cons_self)
+        rw [hA] at this; cases this
+    | cons y ys =>
+      cases hB : Rules.legalMoves (Rules.ofGame g) with
+      | nil =>
+        have := (h3 y).1 (by rw [hA]; exact List.mem_cons_self)
+        rw [hB] at this; cases this
+      | cons x xs => rfl
+  unfold Rules.isFifty
+  rw [hemp]
+  rfl
 
 theorem fifty_below (g : Game) (h : g.halfmove < 100) : g.isFifty = some false := by
   unfold Game.isFifty
@@ -170,6 +207,7 @@ end Tcheran.Props.C11
 #print axioms Tcheran.Props.C11.repeated_exact
 #print axioms Tcheran.Props.C11.repeated_window
 #print axioms Tcheran.Props.C11.fifty_exact
+#print axioms Tcheran.Props.C11.fifty_rules
 #print axioms Tcheran.Props.C11.fifty_below
 #print axioms Tcheran.Props.C11.insufficient_bare_kings
 #print axioms Tcheran.Props.C11.insufficient_one_minor
